@@ -93,12 +93,18 @@ pub struct Push {
     pub chan_requests: Option<(u16, u32)>,
     /// never offered to the explorer; only the scenario's driver can fire it
     pub manual: bool,
+    /// offered only after the push with this label has been used
+    pub after_label: Option<String>,
+    /// no longer offered once the push with this label has been used
+    pub not_after_label: Option<String>,
+    /// no longer offered once the client has sent this (class, method) on this channel
+    pub not_after_client_method: Option<(u16, u16, u16)>,
     pub used: bool,
 }
 
 impl Push {
     pub fn new(label: &str, frames: Vec<AMQPFrame>) -> Push {
-        Push { label: label.to_string(), frames, eof_after: false, after_client_frames: 0, after_pushes: 0, chan_requests: None, manual: false, used: false }
+        Push { label: label.to_string(), frames, eof_after: false, after_client_frames: 0, after_pushes: 0, chan_requests: None, manual: false, after_label: None, not_after_label: None, not_after_client_method: None, used: false }
     }
     pub fn after_frames(mut self, n: usize) -> Push {
         self.after_client_frames = n;
@@ -110,6 +116,18 @@ impl Push {
     }
     pub fn when_channel(mut self, chan: u16, requests: u32) -> Push {
         self.chan_requests = Some((chan, requests));
+        self
+    }
+    pub fn after(mut self, label: &str) -> Push {
+        self.after_label = Some(label.to_string());
+        self
+    }
+    pub fn not_after(mut self, label: &str) -> Push {
+        self.not_after_label = Some(label.to_string());
+        self
+    }
+    pub fn until_client_sends(mut self, chan: u16, class: u16, method: u16) -> Push {
+        self.not_after_client_method = Some((chan, class, method));
         self
     }
     pub fn manual(mut self) -> Push {
@@ -142,6 +160,8 @@ pub struct StdBroker {
     pub frames: Vec<Env>,
     /// replies are queued per channel and released by environment actions instead of at once
     pub hold_replies: bool,
+    /// with hold_replies: only hold the replies to requests numbered above this on their channel
+    pub hold_after_seq: u32,
     held: BTreeMap<u16, VecDeque<Vec<AMQPFrame>>>,
     pub pushes: Vec<Push>,
     pushes_used: usize,
@@ -174,6 +194,9 @@ pub struct StdBroker {
     pub closing_channels: std::collections::BTreeSet<u16>,
     /// (virtual time ns, raw bytes) the server sends on its own at that time, in order
     pub timed: VecDeque<(u64, Vec<u8>)>,
+    /// pushes labelled "d.*" (deliveries) stop being offered once the client has sent any of
+    /// these (channel, class, method)
+    pub delivery_stoppers: Vec<(u16, u16, u16)>,
 }
 
 impl StdBroker {
@@ -186,6 +209,7 @@ impl StdBroker {
             stage: 0,
             frames: Vec::new(),
             hold_replies: false,
+            hold_after_seq: 0,
             held: BTreeMap::new(),
             pushes: Vec::new(),
             pushes_used: 0,
@@ -205,6 +229,7 @@ impl StdBroker {
             open_channels: Default::default(),
             closing_channels: Default::default(),
             timed: VecDeque::new(),
+            delivery_stoppers: Vec::new(),
         }
     }
 
@@ -401,7 +426,7 @@ impl StdBroker {
         if self.silent_after_handshake {
             return;
         }
-        if self.hold_replies {
+        if self.hold_replies && self.seq.get(&chan).copied().unwrap_or(0) > self.hold_after_seq {
             self.held.entry(chan).or_default().push_back(frames);
         } else {
             self.emit_now(&frames, out);
@@ -539,6 +564,30 @@ impl StdBroker {
         }
         if p.after_pushes != usize::MAX && self.pushes_used < p.after_pushes {
             return false;
+        }
+        if p.label.starts_with("d.") {
+            for (chan, class, method) in &self.delivery_stoppers {
+                let seen = self.frames.iter().any(|e| e.chan == *chan && e.ty == 1 && e.payload.len() >= 4 && u16::from_be_bytes([e.payload[0], e.payload[1]]) == *class && u16::from_be_bytes([e.payload[2], e.payload[3]]) == *method);
+                if seen {
+                    return false;
+                }
+            }
+        }
+        if let Some(l) = &p.not_after_label {
+            if self.pushes.iter().any(|q| q.used && q.label == *l) {
+                return false;
+            }
+        }
+        if let Some((chan, class, method)) = p.not_after_client_method {
+            let seen = self.frames.iter().any(|e| e.chan == chan && e.ty == 1 && e.payload.len() >= 4 && u16::from_be_bytes([e.payload[0], e.payload[1]]) == class && u16::from_be_bytes([e.payload[2], e.payload[3]]) == method);
+            if seen {
+                return false;
+            }
+        }
+        if let Some(l) = &p.after_label {
+            if !self.pushes.iter().any(|q| q.used && q.label == *l) {
+                return false;
+            }
         }
         if let Some((chan, n)) = p.chan_requests {
             if !self.open_channels.contains(&chan) || self.seq.get(&chan).copied().unwrap_or(0) < n {
